@@ -510,9 +510,8 @@ class IKRun:
             for vi, T in enumerate(fk_variants(S_, M_, theta, _load()["fmr"].FKinSpace)):
                 a_, l_ = pose_errors(T, G)
                 ok_ = a_ <= rot_tol * (1 + 1e-6) + 1e-12 and min(l_) <= pos_tol * (1 + 1e-6) + 1e-12
-                if ang is None or ok_ or (a_ / max(rot_tol, 1e-300) + min(l_) / max(pos_tol, 1e-300)
-                                           < ang / max(rot_tol, 1e-300) + min(lin) / max(pos_tol, 1e-300)):
-                    ang, lin = a_, l_
+                if ang is None or ok_:
+                    ang, lin = a_, l_       # if no reading reaches the goal the library's own (the first) is reported
                 if ok_:
                     if vi == 1:
                         P["reached_only_under_exact_fk"] += 1
